@@ -140,6 +140,7 @@ def make_nf_default(cell):
         scales = atlas.attrs["matching_scales"]
         nf = 3
         symbolic = False
+        q2n = S.num_norm(q2)
         for sc in scales:
             sc = S.num_norm(sc)
             if S.is_inf(sc):
@@ -149,6 +150,9 @@ def make_nf_default(cell):
                 continue
             if sc == 0:
                 nf += 1
+            elif not isinstance(q2n, A.Rat):
+                if sc <= q2n:  # eko: digitize(Q2, [0]+scales+[inf]) with right=False
+                    nf += 1
             else:
                 symbolic = True
         if symbolic:
